@@ -126,7 +126,7 @@ class PoolGen:
         if alter in ("sigbyte", "shortsig"):
             op["pos"] = self.r.randint(0, 63)
             op["mask"] = self.r.choice([1, 2, 0x80, 0xff, 0x10])
-        if alter is None and not self.race:
+        if alter is None and not self.race and op.get("op") != "ConnectDrop":
             self.captured.append(dict(op))      # what an eavesdropper has: the request exactly as sent
             if len(self.captured) > 40:
                 self.captured.pop(self.r.randrange(20))
@@ -509,6 +509,8 @@ class PoolGen:
             self.shared_wallet_bursts()
         if self.cfg.get("linkread"):
             self.link_read_bursts()
+        if self.cfg.get("reconnrace"):
+            self.reconnect_races()
         if self.cfg.get("staircase") and r.random() < 0.7:
             self.staircase()
         if self.cfg.get("unitsweep") is not None:
@@ -536,6 +538,34 @@ class PoolGen:
             for _ in range(3):
                 reqs.append({"op": "AddAccountBalance", "acct": "a1", "amt": r.choice([1, 3, 7])})
             self.emit({"op": "Burst", "reqs": reqs})
+
+    def reconnect_races(self):
+        """a host registers on a new connection while its old one is closing (and a client asks for peers): whatever the
+        interleaving, the host ends up registered on the new connection"""
+        r = self.r
+        for _ in range(6):
+            hosts = [h for h in sorted(self.connected) if self.full.get(h)]
+            if not hosts:
+                return
+            h = r.choice(hosts)
+            old = self.home.get(h)
+            if old not in self.open:
+                continue
+            new = self.open_conn(mode="ack")
+            if new is None:
+                return
+            self.home[h] = new
+            self.used_by_host[new] = h
+            op = {"op": "Connect", "conn": new, "full": True, "kind": "geth", "payout": "", "uri": "", "ver": "v"}
+            reqs = [self.signed(op, h), {"op": "Close", "conn": old}]
+            r.shuffle(reqs)
+            self.emit({"op": "Burst", "reqs": reqs})
+            del self.open[old]
+            self.used_by_host.pop(old, None)
+            # afterwards a client asks for peers: the instruction must go over the new connection
+            cl = [c for c in sorted(self.connected) if not self.full.get(c)]
+            if cl:
+                self.peer(r.choice(cl))
 
     def link_read_bursts(self):
         """nodes that earned trial credit are linked to a wallet while their balance is being read: every read is the
